@@ -2,6 +2,7 @@
 package c15
 
 import (
+	"regexp"
 	"bytes"
 	"compress/gzip"
 	"fmt"
@@ -95,7 +96,7 @@ func genCase(t *rapid.T) Case {
 	nd := rapid.IntRange(0, 3).Draw(t, "ndamage")
 	for i := 0; i < nd && len(reps) > 0; i++ {
 		r := rapid.SampledFrom(reps).Draw(t, "damaged-rep")
-		c.Damages = append(c.Damages, Damage{Asset: r.asset, Rep: r.rep, Kind: rapid.SampledFrom([]string{"absent", "plain-json", "truncated", "garbage", "wrong-schema", "empty", "trailing-junk"}).Draw(t, "damage")})
+		c.Damages = append(c.Damages, Damage{Asset: r.asset, Rep: r.rep, Kind: rapid.SampledFrom([]string{"absent", "plain-json", "truncated", "garbage", "wrong-schema", "empty", "trailing-junk", "field-type", "bad-media-uri"}).Draw(t, "damage")})
 	}
 	for i := 0; i < 3; i++ {
 		c.Instants = append(c.Instants, int64(rapid.SampledFrom([]int{20_000, 100_000, 1_000_000, 1_700_000_000}).Draw(t, "base"))*1+int64(rapid.IntRange(0, 20000).Draw(t, "off")))
@@ -239,6 +240,28 @@ func checkCase(c Case, work string) (*hx.Violation, info) {
 			var buf bytes.Buffer
 			zw := gzip.NewWriter(&buf)
 			_, _ = zw.Write([]byte(`{"id": 7, "segments": "none", "mediaTimescale": "fast"}`))
+			_ = zw.Close()
+			_ = os.WriteFile(p, buf.Bytes(), 0o644)
+		case "field-type", "bad-media-uri":
+			// the real metadata, syntactically valid, with one inconsistency: a number turned into a string, or a media
+			// template without $Number$/$Time$ (a decoder that fills fields until it meets the problem leaves partial data behind)
+			zr, err := gzip.NewReader(bytes.NewReader(orig))
+			if err != nil {
+				return hx.V("harness", "%v", err), inf
+			}
+			plain, _ := io.ReadAll(zr)
+			var mod []byte
+			if d.Kind == "field-type" {
+				mod = regexp.MustCompile(`"mediaTimescale":\s*(\d+)`).ReplaceAll(plain, []byte(`"mediaTimescale":"$1"`))
+			} else {
+				mod = bytes.ReplaceAll(bytes.ReplaceAll(plain, []byte("$Number$"), []byte("x")), []byte("$Time$"), []byte("x"))
+			}
+			if bytes.Equal(mod, plain) {
+				return hx.V("harness", "damage %s did not change %s", d.Kind, p), inf
+			}
+			var buf bytes.Buffer
+			zw := gzip.NewWriter(&buf)
+			_, _ = zw.Write(mod)
 			_ = zw.Close()
 			_ = os.WriteFile(p, buf.Bytes(), 0o644)
 		case "empty":
